@@ -88,7 +88,7 @@ def rewrite_for_loops(body, expect, log):
         close = match_brace(mb, b)
         body = body[:s] + '{ ' + new + body[b + 1:close + 1] + ' }' + body[close + 1:]
         log.append({'rule': 'R3', 'matched': norm_ws(head), 'replacement': norm_ws(new)})
-    if n != expect:
+    if expect >= 0 and n != expect:
         raise LostAnchor('R3 expected %d for-loops, found %d' % (expect, n))
     return body
 
@@ -135,10 +135,13 @@ def insert_loops(item, body):
     want = sorted(item.loops)
     if item.attrs.get('nloops') is not None and int(item.attrs['nloops']) != len(hdrs):
         raise LostAnchor('item %s: expected %s loops, found %d' % (item.id, item.attrs['nloops'], len(hdrs)))
-    if want and want[-1] > len(hdrs):
+    opt = getattr(item, 'optional_loops', set())
+    if want and max([w for w in want if w not in opt] or [0]) > len(hdrs):
         raise LostAnchor('item %s: loop %d annotated but body has %d loops' % (item.id, want[-1], len(hdrs)))
     # insert from the back so positions stay valid
     for ordn in sorted(item.loops, reverse=True):
+        if ordn > len(hdrs):
+            continue      # optional annotation (`//@ loop? k`) of a loop that is no longer there
         _, b, _ = hdrs[ordn - 1]
         ann = '\n' + '\n'.join(item.loops[ordn]) + '\n'
         body = body[:b] + ann + body[b:]
@@ -267,14 +270,16 @@ class Unit:
                 elif word == 'rw':
                     rule, cnt, r = rest.split(' ', 2)
                     if r.strip() == 'for':
-                        item.rewrites.append((rule, int(cnt), False, None, None))
+                        item.rewrites.append((rule, (-2 if cnt == '*' else int(cnt)), False, None, None))
                     else:
                         m = DELIM.match(r.strip())
                         if not m:
                             raise UnitError('%s:%d bad rw directive' % (self.path, i + 1))
                         item.rewrites.append((rule, (-1 if cnt == '+' else -2 if cnt == '*' else int(cnt)), bool(m.group(1)), m.group(2), m.group(3)))
-                elif word == 'loop':
+                elif word in ('loop', 'loop?'):
                     ordn = int(rest)
+                    if word == 'loop?':
+                        item.optional_loops = getattr(item, 'optional_loops', set()) | {ordn}
                     blk = []
                     i += 1
                     while not lines[i].strip().startswith('//@ endloop'):
